@@ -323,7 +323,7 @@ pub fn run_check(def: &PropertyDef, tier: &str, seed: u64) -> i32 {
             "runs_per_hour": runs_per_hour,
             "executions_per_hour": evals_per_hour,
             "seeds_per_hour_note": "one VERIF_SEED per invocation; every case derives its own PRNG stream from (VERIF_SEED, family, case index), so runs_per_hour is also the number of independent PRNG streams per hour",
-            "simulated_time": "not applicable: the code under test has no clock, timer or deadline",
+            "simulated_time": "every party runs on a simulated clock (start time and speed derived from its keys; every clock read advances the party clock by 1 us, 1 ms, 1 s or 60 s depending on the party, so a party may see hours pass during one call), but the library on this tree asks for the time zero times (see the clock_reads counters): no simulated time is consumed by the code under test, and no timeout or deadline exists whose expiry could be covered",
             "case_families": m.families,
             "counters": m.counters,
             "distinct_sets": sets,
